@@ -1,6 +1,7 @@
 package checks
 
 import (
+	"bytes"
 	"fmt"
 	"go/ast"
 	"go/parser"
@@ -248,7 +249,18 @@ func c03Targets() []c03Target {
 						body[j] = []byte{0x7e, 0x7d, 1, 2}[g.Intn(4)]
 					}
 				}
-				out = append(out, ref.Build(ref.Params{ID: g.U16(), V2019: v, VersionByt: 1, Encrypt: g.Chance(1, 4), Fragmented: k == 1, Sum: g.U16(), No: g.U16(), BCD: g.Bytes(n), Serial: g.U16(), Body: body}))
+				q := ref.Params{ID: g.U16(), V2019: v, VersionByt: 1, Encrypt: g.Chance(1, 4), Fragmented: k == 1, Sum: g.U16(), No: g.U16(), BCD: g.Bytes(n), Serial: g.U16(), Body: body}
+				out = append(out, ref.Build(q))
+				if k == 0 {
+					// the same frame with ONE byte of the phone field changed (checksum rebuilt): consecutive valid inputs that differ
+					// in a single header byte (whatever a decoder remembers about the previous phone gets a near-identical successor)
+					for _, pos := range []int{0, 1, n / 2, n - 1} {
+						q2 := q
+						q2.BCD = append([]byte{}, q.BCD...)
+						q2.BCD[pos] ^= []byte{0x01, 0x10, 0x80, 0xff}[g.Intn(4)]
+						out = append(out, ref.Build(q2))
+					}
+				}
 			}
 			return out
 		}})
@@ -326,6 +338,9 @@ func c03RunCase(t *c03Target, ver consts.ProtocolVersionType, in []byte, prior [
 	if t.TypeName == "P0x8103" || t.TypeName == "T0x0104" {
 		withString = len(in)%7 == 0 // String() of the terminal-parameter types costs ~1 ms
 	}
+	if len(in) > 20000 {
+		withString = false // text rendering of tens of thousands of list entries costs seconds and adds nothing per cut
+	}
 	tn := t.Name
 	run := func(what string, p bodyParser, body []byte) (o c03Outcome, panicked bool) {
 		ws := withString && !strings.HasSuffix(what, "-tail") // text rendering is exercised on the exact and reused presentations
@@ -359,6 +374,17 @@ func c03RunCase(t *c03Target, ver consts.ProtocolVersionType, in []byte, prior [
 		report("overread|"+tn+"|exact vs spare capacity", "outcome differs between cap==len and spare-capacity presentations of the same bytes")
 		return false
 	}
+	// the frame decoder has an independent reference: "depends only on the bytes" means the fields are a function of the bytes,
+	// whatever this process decoded before (process-wide caches included)
+	if fr, isFrame := o1.recv.(*c03Frame); isFrame && !o1.Err {
+		if rf, okf := ref.Validate(in); !okf {
+			report("bytes-only|JTMessage|accepted", "jt808 Decode accepted a frame the reference rejects")
+			return false
+		} else if h := fr.J.Header; h.ID != rf.ID || h.SerialNumber != rf.Serial || h.TerminalPhoneNo != rf.Phone || !bytes.Equal(fr.J.Body, rf.Body) {
+			report("bytes-only|JTMessage|fields", fmt.Sprintf("decoded header fields are not those of the bytes: id %04x/%04x serial %d/%d phone %q/%q", h.ID, rf.ID, h.SerialNumber, rf.Serial, h.TerminalPhoneNo, rf.Phone))
+			return false
+		}
+	}
 	// reused receiver
 	re := t.Mk()
 	for _, pb := range prior {
@@ -380,6 +406,38 @@ func c03RunCase(t *c03Target, ver consts.ProtocolVersionType, in []byte, prior [
 		}
 		report("history|"+t.TypeName+"|"+where, "a receiver that parsed other bodies before gives a different outcome than a fresh one, at "+where+" (target "+tn+")")
 		return false
+	}
+	// reused receiver AND reused input buffer, the way a read loop presents consecutive messages: every body is copied to the
+	// start of the same backing array before it is parsed (state that aliases the previous input sees the new bytes)
+	if len(prior) > 0 {
+		maxLen := len(in)
+		for _, pb := range prior {
+			maxLen = max(maxLen, len(pb))
+		}
+		scratch := make([]byte, maxLen)
+		re2 := t.Mk()
+		for _, pb := range prior {
+			n := copy(scratch, pb)
+			if _, pp := run("reused-buffer(prior)", re2, scratch[:n:n]); pp {
+				return false
+			}
+		}
+		n := copy(scratch, in)
+		ob2, pb2 := run("reused-buffer", re2, scratch[:n:n])
+		if pb2 {
+			return false
+		}
+		if ob2.Err != o1.Err || (!o1.Err && (ob2.Dump != o1.Dump || ob2.Str != o1.Str)) {
+			where := "error-ness"
+			if !o1.Err && !ob2.Err {
+				where = DiffPath(reflect.ValueOf(o1.recv), reflect.ValueOf(ob2.recv), nil)
+				if where == "" {
+					where = "String()/Encode()"
+				}
+			}
+			report("history|"+t.TypeName+"|"+where+" (input buffer reused)", "a receiver that parsed other bodies from the SAME buffer before gives a different outcome than a fresh one, at "+where+" (target "+tn+")")
+			return false
+		}
 	}
 	return true
 }
@@ -747,6 +805,43 @@ func c03Worker(c *core.Collector, x *Ctx) {
 		}
 	})
 	close(stopWatch)
+	// bodies beyond 65535 bytes (reassembled sub-packaged messages): consistent counts of tens of thousands of entries, whole and
+	// cut at a few dozen places, with 16-bit-boundary counts substituted
+	{
+		bigs := gen.BigCases(gen.G{Rand: core.NewRand(c.Seed, "c03big", 0)})
+		nbig := c.Counter("bodies_larger_than_65535_bytes")
+		core.ParallelFor(len(bigs), ncpu(), func(i int) {
+			tc := bigs[i]
+			var tgt *c03Target
+			for k := range targets {
+				if targets[k].TypeName == tc.Type {
+					tgt = &targets[k]
+					break
+				}
+			}
+			if tgt == nil {
+				return
+			}
+			body := tc.Val.Encode()
+			r := core.NewRand(c.Seed, "c03bigr", uint64(i))
+			inputs := [][]byte{body}
+			for q := 0; q < c.N(4, 24); q++ {
+				inputs = append(inputs, body[:r.Intn(len(body))])
+			}
+			for _, cut := range []int{65534, 65535, 65536, 65537, 65540, 131071, 131072} {
+				if cut < len(body) {
+					inputs = append(inputs, body[:cut])
+				}
+			}
+			for _, in := range inputs {
+				c.Evals(4)
+				cs := c03Case{Kind: "c03", Target: tgt.Name, Version: int(tc.Ver), Gen: "big-body", Input: core.HexCap(in, 64) + fmt.Sprintf("…(%d bytes)", len(in))}
+				c03RunCase(tgt, tc.Ver, in, nil, func(sig, detail string) { c.Violate(sig, detail+fmt.Sprintf(" [body of %d bytes, %s]", len(in), tc.Name), cs) })
+				nbig.Add(1)
+				c.NonTrivial(core.HashBytes([]byte(tgt.Name), in[:min(len(in), 64)], []byte(fmt.Sprint(len(in)))))
+			}
+		})
+	}
 	c.Count("inputs_parsed_successfully", parsedOK.Load())
 	c.Floor("entry_points", 40)
 	c.Floor("inputs_parsed_successfully", 5000)
